@@ -4,7 +4,7 @@ import ast
 import operator
 
 import os
-from pathlib import Path
+from pathlib import Path, PurePath
 
 from fortls.constants import KEYWORD_ID_DICT, KEYWORD_LIST, FRegex, sort_keywords
 from fortls.ftypes import Range
@@ -366,6 +366,10 @@ def resolve_globs(glob_path: str, root_path: str = None) -> list[str]:
     True
     """
     if not os.path.isabs(glob_path) and root_path:
+        # A pattern without any component (`.`, `./`) names the root itself,
+        # which `Path.glob` does not accept as a pattern
+        if glob_path and not PurePath(glob_path).parts:
+            return [str(Path(root_path).resolve())]
         return [str(p.resolve()) for p in Path(root_path).resolve().glob(glob_path)]
     p = Path(glob_path).resolve()
     root = p.anchor  # drive letter + root path
